@@ -20,7 +20,7 @@ RULE = ('bounded-exhaustive: every on-disk ruleset whose structure list has 1..3
 ASSUMPTIONS = ['order is compared modulo permutation among pre-terminals whose default probabilities are equal within float slack (DESIGN 4.3)',
                'P(Markov)=1 with skip_brute is outside the property (rescaling undefined)']
 NSHARDS = 16
-CANDS = ['A1', 'A1D1', 'A2A1', 'D1D1', 'Y1O1', 'M']
+CANDS = ['A1', 'A1D1', 'A2A1', 'D1D1', 'Y1O1', 'M', 'A1D1A1']
 
 
 def specs(tier):
